@@ -100,6 +100,7 @@ def main():
         if on_repo:
             sh(f"git -C {REPO} checkout -- .")
         else:
+            sh(f"{PY} -c \"from harness import common; common.drop_builds_for('{SCRATCH}')\"", cwd=VERIF)
             sh(f"git -C {REPO} worktree remove --force {SCRATCH}")
             shutil.rmtree(SCRATCH, ignore_errors=True)
     res["detected"] = any(v["exit"] == 1 for v in res["checks"].values())
